@@ -119,6 +119,15 @@ CHECKS.update({
     ),
 })
 
+CHECKS.update({
+    "C15": (
+        "Hypothesis (register type, solution set, 3 syntactic forms incl. Grover(g, y)) x both optimizers; metamorphic oracle: exact search-register distribution (own state-vector simulator) identical across forms, solutions dominate, decode round-trip, predicate object fingerprint invariant",
+        "For each generated solution set several differently written and differently compiled predicates are wrapped in Grover; the exact marginal distribution of the search register must not depend on the form, every solution must be more likely than every non-solution with total probability above 1/2, every outcome (register-only and full-register string) must decode to the value in the argument type, and the predicate object must be unchanged. Sampled; registers of 2..5 (thorough 6) bits, circuits up to 17 qubits.",
+        "Forms whose own truth table differs from S are dropped (C01 concern); trusts the dense simulator, tolerance 1e-9.",
+        "DESIGN.md section 3 C15",
+    ),
+})
+
 NOT_YET = "check not built yet in this session (work in progress; see DESIGN.md section 3)"
 
 
